@@ -1198,7 +1198,11 @@ func main() {
 			fmt.Fprintf(os.Stderr, "corpus %s: %v\n", fn, err)
 			os.Exit(2)
 		}
-		emitDoc(w, cf.Doc, "corpus", []string{"corpus", filepath.Base(fn)}, cf.Comment)
+		tags := []string{"corpus", filepath.Base(fn)}
+		if cf.Doc.VsSpec {
+			tags = append(tags, "top-amp")
+		}
+		emitDoc(w, cf.Doc, "corpus", tags, cf.Comment)
 	}
 
 	// 2. the precedence table, exhaustively, through the hook
